@@ -28,12 +28,14 @@ import (
 // fakeTB satisfies testing.TB for testutil/keeper.InitAllKeepers (which only uses require.*).
 type fakeTB struct{ testing.TB }
 
-func (fakeTB) Helper()                                   {}
-func (fakeTB) Errorf(format string, args ...interface{}) { panic(fmt.Sprintf("InitAllKeepers: "+format, args...)) }
-func (fakeTB) FailNow()                                  { panic("InitAllKeepers: FailNow") }
-func (fakeTB) Logf(format string, args ...interface{})   {}
-func (fakeTB) Name() string                              { return "chainsim" }
-func (fakeTB) Cleanup(func())                            {}
+func (fakeTB) Helper() {}
+func (fakeTB) Errorf(format string, args ...interface{}) {
+	panic(fmt.Sprintf("InitAllKeepers: "+format, args...))
+}
+func (fakeTB) FailNow()                                { panic("InitAllKeepers: FailNow") }
+func (fakeTB) Logf(format string, args ...interface{}) {}
+func (fakeTB) Name() string                            { return "chainsim" }
+func (fakeTB) Cleanup(func())                          {}
 
 const LavaChainID = "lava-sim"
 
@@ -65,14 +67,14 @@ type World struct {
 	storeKey map[string]storetypes.StoreKey
 
 	// hooks for oracles
-	AfterTx    []func(w *World, tx *TxResult)
-	AfterBlock []func(w *World)
-	BeforeTx   []func(w *World, name string)
+	AfterTx     []func(w *World, tx *TxResult)
+	AfterBlock  []func(w *World)
+	BeforeTx    []func(w *World, name string)
 	BeforeBlock []func(w *World) // before the EndBlock of the current block
 
-	HaltOnBlockPanic bool // C37: report instead of aborting quietly
+	HaltOnBlockPanic bool   // C37: report instead of aborting quietly
 	HaltSigPrefix    string // report only Begin/EndBlock panics raised inside this lava package (a property's own mechanism)
-	WantDigest       bool // compute TxResult.DigestBefore/After (expensive)
+	WantDigest       bool   // compute TxResult.DigestBefore/After (expensive)
 	LastTxEvents     sdk.Events
 	EndBlockEvents   sdk.Events // events emitted by the last EndBlock / BeginBlock (see NextBlock)
 	BeginBlockEvents sdk.Events
@@ -172,8 +174,8 @@ func (w *World) Supply() math.Int { return w.K.BankKeeper.GetSupply(w.Ctx, w.Den
 
 // ---------- clock / blocks ----------
 
-func (w *World) Height() uint64  { return uint64(w.Ctx.BlockHeight()) }
-func (w *World) Now() time.Time  { return w.Ctx.BlockTime() }
+func (w *World) Height() uint64     { return uint64(w.Ctx.BlockHeight()) }
+func (w *World) Now() time.Time     { return w.Ctx.BlockTime() }
 func (w *World) GoCtx() sdk.Context { return w.Ctx }
 
 func (w *World) BlockTimeDefault() time.Duration {
